@@ -33,6 +33,7 @@ import (
 	"github.com/internetarchive/Zeno/internal/pkg/postprocessor"
 	"github.com/internetarchive/Zeno/internal/pkg/postprocessor/domainscrawl"
 	"github.com/internetarchive/Zeno/internal/pkg/postprocessor/extractor"
+	"github.com/internetarchive/Zeno/internal/pkg/postprocessor/sitespecific/facebook"
 	"github.com/internetarchive/Zeno/internal/pkg/postprocessor/sitespecific/ina"
 	"github.com/internetarchive/Zeno/internal/pkg/postprocessor/sitespecific/reddit"
 	"github.com/internetarchive/Zeno/internal/pkg/postprocessor/sitespecific/truthsocial"
@@ -46,7 +47,7 @@ func init() {
 		Header:   "From ZenoV Require Import Lib.Harness Safe.SafeHarness.\n",
 		CaseType: "fcase",
 		Footer:   "\nDefinition DIFF := Eval vm_compute in fdiffs cases.\nPrint DIFF.\nDefinition MON := Eval vm_compute in fmons cases.\nPrint MON.\n",
-		Rule:     "one case = (target, input): target in html (HTMLOutlinks+HTMLAssets), json, xml (+IsSitemapXML), sitemap, s3 (both listing styles), m3u8, pdf, post (postprocessItem with sniffed or deliberately wrong Content-Type), norm (NormalizeURL with and without parent), linkhdr, script, body (ProcessBody), site (reddit / ina / truthsocial decoders); input = recipe (generator kind valid|mut|heavy|splice|patho|rand + seed) or explicit hex; run in a child process with recover(), watchdog and address-space cap; distinct by input text; non-trivial when the target accepted the input (returned without error)",
+		Rule:     "one case = (target, input): target in html (HTMLOutlinks+HTMLAssets), json, xml (+IsSitemapXML), sitemap, s3 (both listing styles), m3u8, pdf, post (postprocessItem with sniffed or deliberately wrong Content-Type), norm (NormalizeURL with and without parent), linkhdr, script, body (ProcessBody), site (reddit / ina / truthsocial / facebook entry points called directly), sitepost (postprocessItem on URLs that route to the site-specific arms - reddit info.json and pages, truthsocial account / lookup / statuses / posts, ina API and pages, facebook - with structure-aware API answers: fields missing, null, empty, wrongly typed, dist independent of children; domains crawl on/off, hop limit reached or not, depth 0-2); input = recipe (generator kind valid|mut|heavy|splice|patho|rand + seed) or explicit hex; run in a child process with recover(), watchdog and address-space cap; distinct by input text; non-trivial when the target accepted the input (returned without error)",
 		Setup:    setupFuzz,
 		Gen:      genFuzz,
 		Exec:     execFuzz,
@@ -260,7 +261,40 @@ func runTarget(target string, data []byte, tmp string) string {
 		if u.GetMIMEType() == nil {
 			panic("ProcessBody left the MIME type nil")
 		}
+	case "sitepost":
+		// the REAL postprocessItem on an item whose URL routes to a site-specific arm of the dispatch
+		if len(data) < 2 {
+			data = append(data, 0, 0)
+		}
+		sp := sitePostShapes[int(data[0])%len(sitePostShapes)]
+		flags, body := data[1], data[2:]
+		hdr := http.Header{"Content-Type": {sp.ct}, "Link": {"<https://site.example/next>; rel=\"next\""}}
+		u := docURL(sp.url, 200, hdr, body)
+		u.SetMIMEType(mimetype.Detect(body[:min(len(body), 2048)]))
+		if flags&2 != 0 {
+			u.SetHops(1) // MaxHops is 1: outlinks only with domains crawl
+		}
+		item := models.NewItem("fz", u, "")
+		parent := item
+		for d := int(flags>>2) % 3; d > 0; d-- { // depth 1 or 2: the item is an asset (of an asset)
+			pu := &models.URL{Raw: "https://parent.example/"}
+			pu.Parse()
+			up := models.NewItem("fz-parent", pu, "")
+			up.AddChild(parent, models.ItemGotChildren)
+			parent = up
+		}
+		item.SetStatus(models.ItemArchived)
+		domainscrawl.Reset()
+		if flags&1 != 0 {
+			domainscrawl.AddElements([]string{"reddit.com", "truthsocial.com"})
+		}
+		postprocessor.VerifC10PostprocessItem(item)
+		domainscrawl.Reset()
 	case "site":
+		fu := &models.URL{Raw: "https://www.facebook.com/user/posts/" + string(data[:min(len(data), 40)])}
+		if fu.Parse() == nil && facebook.IsFacebookPostURL(fu) {
+			facebook.GenerateEmbedURL(fu)
+		}
 		hdr := http.Header{"Content-Type": {"application/json"}}
 		item := models.NewItem("fz", docURL("https://www.reddit.com/api/info.json?id=t3_abc", 200, hdr, data), "")
 		_, err := reddit.ExtractAPIPostPermalinks(item)
